@@ -652,8 +652,10 @@ def grid_op(ctx, rng, info, subj, hist, desc, force=None):
                 # a velocity field is preserved at the new samples, its exponential is recomputed on the new grid: on a grid
                 # that is much coarser along some axis the two exponentials differ by more (seen once in 28 801 thorough
                 # histories: spacing 5.1 against 1); the bound grows with the loss of resolution, up to the gross bound
-                coarser = float(np.max(gen.ref_of_grid(g2).s) / np.max(ref.s))
-                rel2 = min(1.25, rel2 * max(1.0, coarser))
+                s2_ = gen.ref_of_grid(g2).s
+                coarser = float(np.max(s2_) / np.max(ref.s))
+                aniso = float(np.max(s2_) / np.min(s2_))  # (the same history again: spacing (0.11, 0.40, 5.09), ratio 47)
+                rel2 = min(1.25, rel2 * max(1.0, coarser) * max(1.0, aniso / 8.0))
             ctx.bucket(f"grid_/at_new_samples/{desc['kind']}")
             ctx.close(f"grid_change_preserves_world_deformation_at_new_samples/{desc['kind']}/{subj.name}", after2[:, m2], before2[:, m2], rel2 * max(amp, amp2) + 1e-5, key=f"grid_/{desc['kind']}/{subj.name}", history=list(hist), amplitude=amp2, **info)
     ctx.true("grid_attribute_updated", t.grid() == g2 and t.grid().align_corners() == g2.align_corners(), key="grid_/attribute", **info)
